@@ -338,6 +338,26 @@ fn run_op(w: &mut World, f: &[&str]) -> St {
             w.slots[d] = c;
             St::Ok(String::new())
         }
+        "cloneFrom" if n == 3 => {
+            // `Clone::clone_from(&mut d, &s)` on two handles of the same type: the provided method is
+            // `*d = s.clone()` (new reference first, then the old value of `d` is released)
+            let d = idx!(f[1]); let s = idx!(f[2]);
+            if d == s || std::mem::discriminant(&w.slots[d]) != std::mem::discriminant(&w.slots[s]) { bad!(); }
+            match &w.slots[s] {
+                A(_) | AB(_) | AD(_) | AS(_) | AU(_) | AH(_) | AW(_) | AM(_) | AMS(_) | Th(_) | O(_) | U(_) => {}
+                _ => bad!(),
+            }
+            let mut dst = w.take(d);
+            match (&mut dst, &w.slots[s]) {
+                (A(x), A(y)) => x.clone_from(y), (AB(x), AB(y)) => x.clone_from(y), (AD(x), AD(y)) => x.clone_from(y),
+                (AS(x), AS(y)) => x.clone_from(y), (AU(x), AU(y)) => x.clone_from(y), (AH(x), AH(y)) => x.clone_from(y),
+                (AW(x), AW(y)) => x.clone_from(y), (AM(x), AM(y)) => x.clone_from(y), (AMS(x), AMS(y)) => x.clone_from(y),
+                (Th(x), Th(y)) => x.clone_from(y), (O(x), O(y)) => x.clone_from(y), (U(x), U(y)) => x.clone_from(y),
+                _ => unreachable!(),
+            }
+            w.slots[d] = dst;
+            St::Ok(String::new())
+        }
         "drop" if n == 2 => {
             let s = idx!(f[1]);
             match &w.slots[s] { Empty | R(_) | RB(_) | RS(_) | RD(_) | RT(_) => bad!(), _ => {} }
